@@ -82,7 +82,10 @@ def run(facts, rep, tier):
             lam = None; caps = {}
             if isinstance(body, Closure) and body.fn is not None:
                 lam = body.lam if hasattr(body, 'lam') else None
-                body_paths = ex.run_closure(body, this_path=('this',))
+                # the body starts in the state start() had built when it created the thread (members it filled in: a stored task closure)
+                from symex import State as _State
+                st0 = _State(); st0.store = {k_: v_ for k_, v_ in P.store.items() if k_[0] == 'f'}
+                body_paths = ex.run_closure(body, this_path=('this',), state=st0)
                 body_site = body.fn.shortloc()
             elif isinstance(body, Record):
                 a0 = t.node.ns('args')[0] if t.node is not None and t.node.ns('args') else None
